@@ -122,8 +122,9 @@ SHARDS.update({
 })
 
 SHARDS.update({
-    "urwid/widget/pile.py:Pile._get_fixed_rows_sizes": (8, 6),
-    "urwid/widget/columns.py:Columns._get_fixed_column_sizes": (8, 6),
-    "urwid/widget/columns.py:Columns.get_column_sizes#sized": (6, 5),
-    "urwid/widget/columns.py:Columns.sizing": (4, 4),
+    # (three functions of ~20 s each on one core: two shards keep each below the critical path of the property's
+    #  quick run without multiplying the shared prefix work)
+    "urwid/widget/pile.py:Pile._get_fixed_rows_sizes": (2, 5),
+    "urwid/widget/columns.py:Columns._get_fixed_column_sizes": (2, 5),
+    "urwid/widget/columns.py:Columns.get_column_sizes#sized": (2, 5),
 })
